@@ -209,5 +209,67 @@ theorem bg_proj (evictEnds : List Nat) (ls : Nat) (cap : Option Nat) (i : Nat) :
     · subst h; simp
     · simp [h]
 
+/-! ### next-use stamps survive the interleaving -/
+
+theorem find_key_proj (i : Nat) (p : List Nat) : ∀ (xs : List (Nat × Acc)),
+    (xs.find? (fun y => decide ((y.1, y.2.point) = (i, p)))).map (·.2.stamp)
+      = ((proj i xs).find? (fun a => decide (a.point = p))).map (·.stamp)
+  | [] => rfl
+  | y :: r => by
+    have ih := find_key_proj i p r
+    rw [proj_cons, List.find?_cons]
+    by_cases h1 : y.1 = i
+    · by_cases h2 : y.2.point = p
+      · have : ((y.1, y.2.point) = (i, p)) := by rw [h1, h2]
+        simp [this, h1, h2]
+      · have : ¬ ((y.1, y.2.point) = (i, p)) := by
+          intro e; exact h2 (Prod.mk.inj e).2
+        rw [decide_eq_false this]
+        simp only [h1, if_true, List.find?_cons, h2, decide_false]
+        exact ih
+    · have : ¬ ((y.1, y.2.point) = (i, p)) := by
+        intro e; exact h1 (Prod.mk.inj e).1
+      rw [decide_eq_false this]
+      simp only [h1, if_false]
+      exact ih
+
+theorem scheduleFuel_nextOk (L : Nat) : ∀ (fuel : Nat) (ts : List (List Acc)), totalLen ts ≤ fuel →
+    (∀ t ∈ ts, nextOkB t = true) → schedNextOkB (scheduleFuel L fuel ts) = true
+  | 0, _, _, _ => rfl
+  | fuel + 1, ts, hf, hok => by
+    simp only [scheduleFuel]
+    cases hp : pickMin L 0 none ts with
+    | none => rfl
+    | some i =>
+      rcases pickMin_some L ts 0 none i hp with ⟨k, hk⟩ | ⟨_, a, r, hi⟩
+      · cases hk
+      · simp only [Nat.sub_zero] at hi
+        simp only [popAt_some i ts a r hi]
+        have hlen := totalLen_set hi
+        have hmem : (a :: r) ∈ ts := List.mem_of_getElem? hi
+        have har := hok _ hmem
+        simp only [nextOkB, Bool.and_eq_true, decide_eq_true_eq] at har
+        have hok' : ∀ t ∈ ts.set i r, nextOkB t = true := by
+          intro t ht
+          rcases List.mem_or_eq_of_mem_set ht with h | h
+          · exact hok t h
+          · rw [h]; exact har.2
+        simp only [schedNextOkB, Bool.and_eq_true, decide_eq_true_eq]
+        refine ⟨?_, scheduleFuel_nextOk L fuel (ts.set i r) (by omega) hok'⟩
+        rw [find_key_proj, scheduleFuel_proj L fuel (ts.set i r) (by omega) i]
+        have hlt : i < ts.length := by
+          cases h : ts[i]? with
+          | none => rw [h] at hi; cases hi
+          | some _ => exact (List.getElem?_eq_some_iff.1 h).1
+        have : (ts.set i r).getD i [] = r := by
+          simp [List.getD_eq_getElem?_getD, List.getElem?_set, hlt]
+        rw [this]
+        exact har.1
+
+/-- the consumption sequence carries correct next-use stamps when every binding's trace does -/
+theorem schedule_nextOk (L : Nat) (ts : List (List Acc)) (h : ∀ t ∈ ts, nextOkB t = true) :
+    schedNextOkB (schedule L ts) = true :=
+  scheduleFuel_nextOk L (totalLen ts) ts (Nat.le_refl _) h
+
 end Traffic
 end Ft
